@@ -953,6 +953,18 @@ func (r *heapRun[T]) apply(op HOp) string {
 		if calls != j {
 			return r.errf("Each made %d callbacks after being told to stop at %d", calls, j)
 		}
+		// a second Each from inside the callback of the first, at element j:
+		// both must make one callback per element
+		outer, inner := 0, 0
+		r.q.Each(func(T) bool {
+			if outer++; outer == j {
+				r.q.Each(func(T) bool { inner++; return true })
+			}
+			return true
+		})
+		if outer != n || inner != n {
+			return r.errf("Each with a second Each run inside its callback (at element %d) made %d and %d callbacks, the queue holds %d", j, outer, inner, n)
+		}
 		return ""
 	case "update":
 		if op.A%2 == 0 {
@@ -1085,6 +1097,7 @@ func runHeapT[T any](c HeapCase, checkPos bool, o *vk.Obs, kit elem.Kit[T]) (*he
 		return b, msg
 	}
 	for i, op := range c.Ops {
+		o.Step() // interleaved execution (vk.Interleave) switches to the other case here
 		r.step = i
 		if msg := r.apply(op); msg != "" {
 			return b, msg
